@@ -81,15 +81,30 @@ string extractFuncname( const string& pretty_funcname)
 #endif
 
    auto const  operator_pos = pretty_funcname.find( "operator");
-   auto const  template_start_pos = pretty_funcname.find( "<");
-   auto const  start_search_back = (operator_pos != string::npos)
-     ? operator_pos
-     : (template_start_pos != string::npos) ? template_start_pos
-       : first_parenthesis;
-   
+
    // now we have the position of the parenthesis that follows the function name
-   // search backwards to the first space
-   auto  first_space = pretty_funcname.rfind( ' ', start_search_back) + 1;
+   // (for operators: the position of the keyword, the operator symbol itself
+   // may contain angle brackets)
+   // search backwards to the first space that is not part of a template
+   // argument list: "Cls<A, B>::method" is a name, and neither a return type
+   // like "std::vector<int>" nor the types of the parameters belong to it
+   auto  first_space = ((operator_pos != string::npos)
+                        && (operator_pos < first_parenthesis))
+     ? operator_pos
+     : ((first_parenthesis != string::npos) ? first_parenthesis
+                                            : pretty_funcname.length());
+   int   angle_depth = 0;
+   while (first_space > 0)
+   {
+      auto const  ch = pretty_funcname[ first_space - 1];
+      if (ch == '>')
+         ++angle_depth;
+      else if (ch == '<')
+         --angle_depth;
+      else if ((ch == ' ') && (angle_depth == 0))
+         break;   // while
+      --first_space;
+   } // end while
 
 #ifdef __clang__
    // used for clang ...
